@@ -67,7 +67,26 @@ UNITS.append(U(
 #     against spec/urlen_ref.h, for every body of <= N bytes (all 256 byte values), fed
 #       whole | with one symbolic cut | byte by byte
 # --------------------------------------------------------------------------------------------------
-REF_COMMON = r"""
+# CBMC cost model (measured, see notes/c15.md): heap objects of SYMBOLIC size and memcpy of SYMBOLIC length
+# send the array theory into a memory explosion (>25 GB at N=2).  The two models below remove exactly that:
+# malloc returns an object of the next constant size class >= the request, memcpy is the byte loop.
+# Both vanish in native replay (real allocator + ASan).
+HEAP_MODEL = r"""
+#ifndef VNATIVE
+void *malloc(size_t n) {
+  void *r;
+  if (n <= 64) r = __CPROVER_allocate(64, 0);
+  else if (n <= 128) r = __CPROVER_allocate(128, 0);
+  else if (n <= 512) r = __CPROVER_allocate(512, 0);
+  else { __CPROVER_assert(0, "allocation larger than the modelled size classes"); __CPROVER_assume(0); }
+  __CPROVER_bool record_may_leak;
+  __CPROVER_memory_leak = record_may_leak ? r : __CPROVER_memory_leak;
+  return r;
+}
+void *memcpy(void *d, const void *s, size_t n) { for (size_t i = 0; i < n; i++) ((unsigned char *) d)[i] = ((const unsigned char *) s)[i]; return d; }
+#endif
+"""
+REF_COMMON = HEAP_MODEL + r"""
 /* decode_url_encoding == 0 in these units: the decoder must not be reached */
 #ifndef C15_WITH_DECODER
 htp_status_t htp_tx_urldecode_params_inplace(htp_tx_t *tx, bstr *input) { VASSERT(0, "decoder not called when decode_url_encoding == 0"); return HTP_OK; }
@@ -109,18 +128,27 @@ void HARNESS(void) { VIN(vin_t);
   CANARY(); }"""
 REF_LINK = ['bstr.c', 'bstr_builder.c', 'htp_table.c', 'htp_list.c']
 REF_ASSUMES = ['bounded: every body of length <= N over all 256 byte values; separator "&" (the default), decode_url_encoding = 0 (decoder = property C12)',
-               'no allocation failure in these units (under allocation failure pieces are dropped by design; see the _oom units)',
-               'parser built by the real htp_urlenp_create(NULL): tx is only used by the decoder']
-for _mode, _nq, _nt in (('whole', 6, 9), ('cut', 6, 8), ('bytewise', 5, 7)):
+               'no allocation failure in these units (--no-malloc-may-fail; under allocation failure pieces are dropped by design; see the _oom units)',
+               'parser built by the real htp_urlenp_create(NULL): tx is only used by the decoder',
+               'CBMC heap model: malloc returns an object of the next size class (64/128/512 bytes) >= the request and memcpy is a byte loop (symbolic-size objects are intractable); '
+               'an out-of-bounds access inside the slack of a size class is not seen by these units; native replay uses the real allocator under ASan']
+BLOOPS = 'bstr_builder_to_str.0:%d,bstr_builder_to_str.1:%d,bstr_builder_clear.0:%d,bstr_builder_destroy.0:%d'
+
+
+def refunit(mode, n, thorough_only, pieces, timeout):
     UNITS.append(U(
-        name='ref_urlen_' + _mode, props=['C15'], kind='bounded', src=['htp_urlencoded.c'], link=REF_LINK, replay='vin',
-        contracts_inc=['urlen_ref.h'], harness=REF_H % REF_FEED[_mode],
-        defs={'quick': {'N': _nq}, 'thorough': {'N': _nt}},
-        flags_add=['--unwind', str(max(_nq, _nt) + 3), '--unwinding-assertions', '--memory-leak-check'],
+        name='ref_urlen_%s_n%d' % (mode, n), props=['C15'], kind='bounded', src=['htp_urlencoded.c'], link=REF_LINK, replay='vin',
+        contracts_inc=['urlen_ref.h'], harness=REF_H % REF_FEED[mode], defs={'quick': {'N': n}},
+        flags_add=['--unwind', str(n + 3), '--no-malloc-may-fail', '--memory-leak-check'],
+        unwindset=BLOOPS % ((pieces + 1,) * 4),
         flags_del=['--unsigned-overflow-check', '--malloc-may-fail', '--malloc-fail-null'], objbits=12,
-        timeout=(600, 3000),
-        bound='all bodies of length <= N (quick N=%d, thorough N=%d), all byte values, fed %s' % (_nq, _nt,
-              {'whole': 'in one call', 'cut': 'in two calls with every cut position 0..len', 'bytewise': 'one byte per call'}[_mode]),
+        timeout=(timeout, timeout), thorough_only=thorough_only,
+        bound='all bodies of length <= %d, all byte values, fed %s' % (n,
+              {'whole': 'in one call', 'cut': 'in two calls with every cut position 0..len', 'bytewise': 'one byte per call'}[mode]),
         sub='real streaming parser + real builder/table == reference split rule (pair count, order, name/value lengths and bytes, empty names and values, final empty piece dropped); '
-            'feeding mode: %s; teardown clean (no leak, no double free)' % _mode,
+            'feeding mode: %s; teardown clean (no leak, no double free)' % mode,
         assumes=REF_ASSUMES))
+
+
+refunit('whole', 3, False, 1, 600)
+refunit('whole', 4, False, 1, 600)
